@@ -6,7 +6,7 @@ CONSTANTS
   Formats = {"pilosa","official"}
   MaxBatch = 3
   RowSizes = {0,1,2}
-  Alphabet = {"Add","Remove","AddN","RemoveN","ImportSet","ImportClear","Optimize","Reencode","Contains","Count","Slice","Max","Min","Views","CountRange"}
+  Alphabet = {"Add","Remove","AddN","RemoveN","ImportSet","ImportClear","Optimize","Reencode","Hold","Contains","Count","Slice","Max","Min","Views","CountRange"}
 INIT Init
 NEXT Next
 INVARIANT TypeOK
